@@ -131,7 +131,12 @@ pub fn spec(c: &mut Cur, depth: u32, cfg: GenCfg) -> Spec {
       let t = text_cfg(c, cfg);
       let am = abs_map(c, cfg.wild);
       let map = concretize_map(&t, &am, cfg.ascii);
-      Spec::Sms { text: t, name: format!("g{}.js", c.below(3)), map }
+      let full = match c.u8() % 8 {
+        0 => Some((None, true)),
+        1 => Some((Some("orig".to_string()), false)),
+        _ => None,
+      };
+      Spec::Sms { text: t, name: format!("g{}.js", c.below(3)), map, full }
     }
     7 => {
       let t = text_cfg(c, cfg);
